@@ -1170,12 +1170,14 @@ func ruleSortScan(r *Report) {
 		return
 	}
 	scans := callsWhere(fn, func(_ ssa.Instruction, cc *ssa.CallCommon) bool {
-		return methodOn(cc, "github.com/tidwall/btree", "BTreeG", "Scan", "Ascend", "Descend", "Reverse")
+		return methodOn(cc, "github.com/tidwall/btree", "BTreeG", "Scan", "ScanMut", "Ascend", "AscendMut", "Descend", "DescendMut", "Reverse", "ReverseMut")
 	})
 	ok := len(scans) == 1
 	if ok {
 		cc, _, _ := callCommon(scans[0])
-		ok = baseName(cc.StaticCallee()) == "Scan"
+		// Scan and ScanMut both visit the whole tree in ascending order (they differ in the tree's own lock mode)
+		n := baseName(cc.StaticCallee())
+		ok = n == "Scan" || n == "ScanMut"
 	}
 	var pos ssa.Instruction
 	if len(scans) > 0 {
@@ -1393,7 +1395,7 @@ func ruleExpire(r *Report) {
 						cl, ok := v.(*ssa.Call)
 						return ok && calleeIs(&cl.Call, "time.Now")
 					}, 8)
-				okPos = dep
+				okPos = dep && nowPlusUnits(ret.Results[k])
 			}
 		}
 		return (okPos && okZero) || (viaHelper && len(rets) > 0)
@@ -1457,7 +1459,7 @@ func ruleExpire(r *Report) {
 				for _, e := range phi.Edges {
 					if z, isC := constInt(e); isC && z == 0 {
 						zero = true
-					} else if dependsOnTTL(e) {
+					} else if dependsOnTTL(e) && nowPlusUnits(e) {
 						dead = true
 					}
 				}
@@ -1484,7 +1486,7 @@ func ruleExpire(r *Report) {
 				if z, isC := constInt(expireVal(cc)); isC && z == 0 {
 					return "never"
 				}
-				if dependsOnTTL(expireVal(cc)) {
+				if dependsOnTTL(expireVal(cc)) && nowPlusUnits(expireVal(cc)) {
 					return "deadline"
 				}
 				return "other"
@@ -1510,6 +1512,12 @@ func ruleExpire(r *Report) {
 			cc, _, _ := callCommon(c)
 			if dependsOn(cc.Args[1], func(v ssa.Value) bool { return v == ssa.Value(fn.Params[1]) }, 6) {
 				ok = true
+				// the delta is merged in the unit the deadline is stored in: nanoseconds
+				for n := range timeCallsOf(cc.Args[1], 8) {
+					if n != "(time.Duration).Nanoseconds" {
+						ok = false
+					}
+				}
 			}
 		}
 		hw.Check(ok, "(column.rwTTL).Extend", r.P.Pos(fn.Pos()), "Merge(delta)", "Extend is not a merge of the delta into the stored deadline")
@@ -2239,4 +2247,33 @@ func helperResult(v ssa.Value) ssa.Value {
 		v = norm(rets[0].Results[0])
 	}
 	return v
+}
+
+// timeCallsOf: the functions and methods of package time on the dependency closure of v.
+func timeCallsOf(v ssa.Value, depth int) map[string]bool {
+	out := map[string]bool{}
+	dependsOn(v, func(z ssa.Value) bool {
+		if cl, ok := z.(*ssa.Call); ok {
+			if sc := cl.Call.StaticCallee(); sc != nil && sc.Pkg != nil && sc.Pkg.Pkg.Path() == "time" {
+				out[calleeShort(&cl.Call)] = true
+			}
+		}
+		return false
+	}, depth)
+	return out
+}
+
+// nowPlusUnits: a deadline is time.Now().Add(ttl).UnixNano() (or Now().UnixNano() + int64(ttl)): on
+// the way from the clock and the time-to-live to the stored int64 nothing rounds, truncates or
+// changes the unit (Unix, UnixMilli, Round, Truncate, Seconds …).
+func nowPlusUnits(v ssa.Value) bool {
+	calls := timeCallsOf(v, 10)
+	for n := range calls {
+		switch n {
+		case "time.Now", "(time.Time).Add", "(time.Time).UnixNano", "(time.Duration).Nanoseconds":
+		default:
+			return false
+		}
+	}
+	return calls["(time.Time).UnixNano"] || len(calls) == 0
 }
